@@ -371,6 +371,13 @@ func c14Run(s *sim.Sim, p *sim.Params) {
 	s.Note("executions", execs)
 }
 
+// c14poolSetting: the pool size the handle was configured with (what Connect would apply; 25 is
+// what a parsed connection string carries). The simulated database keeps one connection whatever
+// the setting says: the setting is configuration the handle may read, not behaviour.
+func c14poolSetting(s *sim.Sim) int {
+	return []int{0, 1, 2, 3, 25}[s.Choose(sim.SWork, 5)]
+}
+
 func c14open(s *sim.Sim, dir string, n int, backendKind int) *c14backend {
 	dsn := ":memory:"
 	if backendKind != 0 {
@@ -387,7 +394,7 @@ func c14open(s *sim.Sim, dir string, n int, backendKind int) *c14backend {
 		}
 		db.SetMaxOpenConns(1)
 		db.SetMaxIdleConns(1)
-		x := &SQLiteDB{config: &Config{Database: dsn}, db: db}
+		x := &SQLiteDB{config: &Config{Database: dsn, MaxOpenConns: c14poolSetting(s)}, db: db}
 		b = &c14backend{name: "sqlite", txfn: x.Transaction, db: db, bulk: x.BulkInsert, ph: func(int) string { return "?" }}
 	case 2:
 		db, err := sql.Open("sqlitefault", dsn)
@@ -395,7 +402,7 @@ func c14open(s *sim.Sim, dir string, n int, backendKind int) *c14backend {
 			s.InfraFail(err.Error())
 		}
 		db.SetMaxOpenConns(1)
-		x := &MySQLDB{config: &Config{}, db: db}
+		x := &MySQLDB{config: &Config{MaxOpenConns: c14poolSetting(s)}, db: db}
 		b = &c14backend{name: "mysql-struct", txfn: x.Transaction, db: db, bulk: x.BulkInsert, ph: func(int) string { return "?" }}
 	default:
 		db, err := sql.Open("sqlitefault", dsn)
@@ -403,7 +410,7 @@ func c14open(s *sim.Sim, dir string, n int, backendKind int) *c14backend {
 			s.InfraFail(err.Error())
 		}
 		db.SetMaxOpenConns(1)
-		x := &PostgresDB{config: &Config{}, db: db}
+		x := &PostgresDB{config: &Config{MaxOpenConns: c14poolSetting(s)}, db: db}
 		b = &c14backend{name: "postgres-struct", txfn: x.Transaction, db: db, bulk: x.BulkInsert, ph: func(i int) string { return fmt.Sprintf("$%d", i) }}
 	}
 	if _, err := b.db.Exec("CREATE TABLE IF NOT EXISTS t (id INTEGER PRIMARY KEY, k TEXT UNIQUE, v INTEGER)"); err != nil {
@@ -617,6 +624,18 @@ func c14execute(s *sim.Sim, dir string, n int, backendKind int, txns []c14txn, t
 			s.Fail("oracle", site+":"+b.name, fmt.Sprintf("%s: transaction %d %v (ignoreErrs=%v) returned err=%v panicked=%v; table is %v, allowed: %v", desc, ti, t.stmts, t.ignoreErrs, txErr, panicked != nil, got, allowed))
 		}
 		model = got
+		// the database may stay unreachable for a few more attempts: each of them fails to begin
+		// and, like the first, leaves nothing behind
+		if fault.kind == "begin" {
+			for k := s.Choose(sim.SWork, 3); k > 0; k-- {
+				c14faults.arm("begin", 1)
+				bctx, bcancel := context.WithTimeout(context.Background(), 5*time.Second)
+				b.txfn(bctx, func(tx *sql.Tx) error { return nil })
+				bcancel()
+				c14faults.arm("", 0)
+				s.Fault("begin")
+			}
+		}
 		// the next fault-free transaction on the same handle completes (connection usable, nothing left open)
 		pctx, pcancel := context.WithTimeout(context.Background(), 5*time.Second)
 		perr := b.txfn(pctx, func(tx *sql.Tx) error {
